@@ -363,8 +363,98 @@ static void maptrace (char *line)
     }
 }
 
+/* ---- arrtrace: unit-style access to add_array (lib/lpc/array.c) with chosen reference counts ------------------------
+ *   arrtrace <same> <psize> <pextra> <rsize> <rextra>
+ * p holds 1..psize, r holds 101..100+rsize (same = 1: r is p).  Each operand slot of the call owns one reference, pextra /
+ * rextra further references are held by "somebody else" (this harness).  After add_array (p, r) one line is printed:
+ *   A <args> res=<V|E|P|R> ref=<n> items=[..] p=<ref>:[..] r=<ref>:[..]      (p= / r= only while this harness still holds them)
+ * `nvdrive C03 model` prints the same line from NV.C03.Heap.addArray. */
+static void arr_print (char *out, size_t cap, array_t *a)
+{
+  size_t n = 0;
+  n += snprintf (out + n, cap - n, "[");
+  for (int i = 0; i < a->size && n + 32 < cap; i++)
+    {
+      if (a->item[i].type == T_NUMBER)
+        n += snprintf (out + n, cap - n, "%s%lld", i ? "," : "", (long long) a->item[i].u.number);
+      else
+        n += snprintf (out + n, cap - n, "%s?%d", i ? "," : "", (int) a->item[i].type);
+    }
+  snprintf (out + n, cap - n, "]");
+}
+
+static array_t *arr_make (int size, int base)
+{
+  array_t *a = allocate_empty_array (size);
+  for (int i = 0; i < size; i++)
+    {
+      a->item[i].type = T_NUMBER;
+      a->item[i].subtype = 0;
+      a->item[i].u.number = base + i + 1;
+    }
+  return a;
+}
+
+static void arrtrace (char *line)
+{
+  int same = 0, psize = 0, pextra = 0, rsize = 0, rextra = 0;
+  char bp[512], br[512], bd[1024], tail[1100];
+  error_context_t econ;
+  if (sscanf (line, "%d %d %d %d %d", &same, &psize, &pextra, &rsize, &rextra) != 5)
+    {
+      vh_out ("A %s !badargs", line);
+      return;
+    }
+  save_context (&econ);
+  if (setjmp (econ.context))
+    {
+      restore_context (&econ);
+      pop_context (&econ);
+      vh_out ("A %d %d %d %d %d !err", same, psize, pextra, rsize, rextra);
+      return;
+    }
+  array_t *p = arr_make (psize, 0);
+  array_t *r = same ? p : arr_make (rsize, 100);
+  if (same)
+    p->ref++;                   /* the second operand slot */
+  p->ref += pextra;
+  if (!same)
+    r->ref += rextra;
+  array_t *d = add_array (p, r);
+  arr_print (bd, sizeof bd, d);
+  tail[0] = 0;
+  if (pextra > 0)
+    {
+      arr_print (bp, sizeof bp, p);
+      if (p->size == 0)         /* the shared null array: its count says nothing */
+        snprintf (tail + strlen (tail), sizeof tail - strlen (tail), " p=*:%s", bp);
+      else
+        snprintf (tail + strlen (tail), sizeof tail - strlen (tail), " p=%d:%s", (int) p->ref, bp);
+    }
+  if (!same && rextra > 0)
+    {
+      arr_print (br, sizeof br, r);
+      if (r->size == 0)
+        snprintf (tail + strlen (tail), sizeof tail - strlen (tail), " r=*:%s", br);
+      else
+        snprintf (tail + strlen (tail), sizeof tail - strlen (tail), " r=%d:%s", (int) r->ref, br);
+    }
+  if (d->size == 0)
+    vh_out ("A %d %d %d %d %d res=E ref=* items=%s%s", same, psize, pextra, rsize, rextra, bd, tail);
+  else
+    /* the address of the result means something only while somebody else holds the operand (RESIZE_ARRAY may move a block) */
+    vh_out ("A %d %d %d %d %d res=%s ref=%d items=%s%s", same, psize, pextra, rsize, rextra,
+            (pextra > 0 && d == p) ? "P" : ((!same && rextra > 0 && d == r) ? "R" : "V"), (int) d->ref, bd, tail);
+  pop_context (&econ);
+}
+
 static int c03_cmd (char *line)
 {
+  if (!strncmp (line, "arrtrace ", 9))
+    {
+      arrtrace (line + 9);
+      return 1;
+    }
   if (!strncmp (line, "maptrace ", 9))
     {
       maptrace (line + 9);
